@@ -33,6 +33,10 @@ CLAIMED = {
         text="Lean theorems: finiteness of the dequantized values of every finite slice/group under the explicit no-overflow guard, null slices give the clamped (positive) scale and dequantize to 0, all-zero affine groups dequantize to 0 whatever the stored codes, error bounds inherited from C01/C02; "
              "counter-example theorems for the repaired null-scale defect and the recorded overflow findings. Correspondence of the whole quantize_weight path on mixtures of 8 degenerate row classes, calibration on zero/constant batches then inference, zero-weight layers equal to bias.",
         design="6/C16", technique="Lean 4 proof (corollaries of C01-C03 + guards) + bit-exact differential correspondence"),
+    "C14": dict(
+        text="Lean theorems over all shapes/configurations: the validation ladders of quantize_weight, quantize_activation, SymmetricQuantizer and AffineQuantizer return ValueError or an accepted configuration that keeps the requested qtype, axis (size-1 axis of an 8-bit weight becomes per-tensor) and group size; accepted per-axis scales have exactly the keepdim shape; "
+             "the automatic group size is, for every n, the largest of 128/96/64/32 dividing n (only for n > 128) and always groupable for Linear and Conv2d weights. Exhaustive correspondence of the decision (exception class or accepted configuration) on ~22k configurations of small shapes + C06 well-formedness of every accepted result.",
+        design="6/C14", technique="Lean 4 proof of total decision tables + exhaustive differential correspondence on small shapes"),
 }
 
 NOT_YET = "check not yet built in this round (build in progress; see DESIGN.md build order)"
